@@ -93,6 +93,26 @@ def match_over(args):
         w.close()
 
 
+def login_from_callback(args):
+    """The application sends its first (guaranteed, echoed) request from inside the connect callback, so that it shares a datagram with the challenge response,
+    while the handler's connect event raises: events keep flowing - the request reaches the handler and is answered."""
+    seed, raising = args
+    import srvworld as SW
+    w = SW.ServerWorld(seed=seed, conn_timeout=2.0, handler_raise=1.0 if raising else 0.0)
+    try:
+        w.raise_in = {"connect"}
+        for c in (1, 2, 3):
+            w.add_client(c, ("10.7.0.%d" % c, 7200 + c), callback="login")
+            for t in range(7):
+                w.tick()
+        for t in range(90):
+            w.tick()
+        w.shutdown()
+        return w.ev
+    finally:
+        w.close()
+
+
 def run(ctx):
     ctx.level = "model_checking"
     ctx.rule = ("events of recorded executions of the real server loop judged by TLC against Trace_Server; distinct = handler events + datagrams in/out; "
@@ -119,6 +139,10 @@ def run(ctx):
     with ProcessPoolExecutor(min(8, len(mj))) as ex:
         mtr = list(ex.map(match_over, mj))
     SJ.judge_and_report(ctx, "C10", mtr, ["match over: client %d leaves, the handler closes the others, shutdown %d ticks later" % (j[2], j[1]) for j in mj])
+    lj = [(ctx.seed + i, r) for i in range(1 if q else 4) for r in (True, False)]
+    with ProcessPoolExecutor(min(8, len(lj))) as ex:
+        ltr = list(ex.map(login_from_callback, lj))
+    SJ.judge_and_report(ctx, "C10", ltr, ["first request sent from the connect callback, handler.connect %s" % ("raises" if j[1] else "returns") for j in lj])
     jobs = [(ctx.seed + i, 700 if q else 2500) for i in range(3 if q else 16)]
     with ProcessPoolExecutor(min(8, len(jobs))) as ex:
         traces = list(ex.map(token_collisions, jobs))
